@@ -115,6 +115,18 @@ def main(argv):
 
     known = [k for k in lib.load_known() if k["property"] == prop]
     known_open = {k["case_hash"]: k for k in known if k.get("status") == "known"}
+    # a known finding is identified by its pinned input (case_hash) and, where the defect sits in one identifiable call
+    # of a library, by that call site as well: the implementation worker reports the call sites a case went through
+    known_sites = {k["call_site"]: k for k in known if k.get("status") == "known" and k.get("call_site")}
+
+    def known_for(bad):
+        h = lib.case_hash(bad["case"])
+        if h in known_open:
+            return known_open[h]
+        for site in (bad.get("impl") or {}).get("call_sites", []):
+            if site in known_sites:
+                return known_sites[site]
+        return None
 
     if not args.replay:
         import shutil
@@ -134,15 +146,15 @@ def main(argv):
         if r["shard_errors"]:
             problems.append({"kind": "case-shard", "stream": st["name"], "detail": r["shard_errors"][0][-2000:]})
         for bad in r["spec_bad"]:
-            h = lib.case_hash(bad["case"])
-            if h in known_open:
-                known_hits.append((known_open[h], bad))
+            k = known_for(bad)
+            if k is not None:
+                known_hits.append((k, bad))
             else:
                 violations.append((st, bad))
         for bad in r["tie_bad"]:
-            h = lib.case_hash(bad["case"])
-            if h in known_open:
-                known_hits.append((known_open[h], bad))
+            k = known_for(bad)
+            if k is not None:
+                known_hits.append((k, bad))
             else:
                 problems.append({"kind": "correspondence", "stream": st["name"], "case": bad["case"], "impl": bad["impl"],
                                  "tie": bad["tie"], "spec": bad["spec"]})
@@ -157,8 +169,10 @@ def main(argv):
     # ---------------- verdict
     out_lines = []
     exit_code = 0
-    for k, bad in known_hits:
-        out_lines.append(f"KNOWN-FINDING: property={prop} {k['id']}: {k['what']}")
+    for kid in sorted({k["id"] for k, _ in known_hits}):
+        k = next(k for k, _ in known_hits if k["id"] == kid)
+        n = sum(1 for kk, _ in known_hits if kk["id"] == kid)
+        out_lines.append(f"KNOWN-FINDING: property={prop} {k['id']}: {k['what']}" + (f" ({n} inputs of this run)" if n > 1 else ""))
     if violations:
         # report the smallest failing input
         st, bad = min(violations, key=lambda v: len(json.dumps(v[1]["case"])))
